@@ -899,6 +899,23 @@ func init() {
 		}
 		panic(unsupported("strings.HasPrefix with non-constant prefix"))
 	})
+	reg("slices.Clip", "the same slice with its capacity reduced to its length: shares the backing array", func(x *Exec, n *ast.CallExpr, recv ast.Expr, st *State) (Val, *State) {
+		sv, st1 := x.eval(n.Args[0], st)
+		return sv, st1
+	})
+	reg("strings.HasSuffix", "whether s ends with suffix", func(x *Exec, n *ast.CallExpr, recv ast.Expr, st *State) (Val, *State) {
+		sv, st1 := x.eval(n.Args[0], st)
+		if cv, ok := x.constOf(n.Args[1]); ok {
+			p := constant.StringVal(cv)
+			s := sv.(Sc).T
+			cs := []string{tGe(app("slen", s), tInt(int64(len(p))))}
+			for i := 0; i < len(p); i++ {
+				cs = append(cs, tEq(app("sat", s, tAdd(tSub(app("slen", s), tInt(int64(len(p)))), tInt(int64(i)))), tInt(int64(p[i]))))
+			}
+			return scBool(tAnd(cs...)), st1
+		}
+		panic(unsupported("strings.HasSuffix with non-constant suffix"))
+	})
 	reg("github.com/fluhus/gostuff/aio.Open", "opens the path: error for an unopenable path, else a reader over the (decompressed by suffix) file bytes; the reader is a function of the path", func(x *Exec, n *ast.CallExpr, recv ast.Expr, st *State) (Val, *State) {
 		pv, st1 := x.eval(n.Args[0], st)
 		c := x.c
